@@ -3,8 +3,40 @@ import z3
 from . import dag as D, real as R
 
 
+class _NL:
+    """non-incremental stand-in for z3.Solver: a fresh QF_NRA (nlsat) solver per check (the incremental core answers
+    unknown on non-linear path conditions)"""
+
+    def __init__(self, timeout):
+        self.fs, self.stack, self.timeout, self._m = [], [], timeout, None
+
+    def set(self, *a):
+        pass
+
+    def add(self, f):
+        self.fs.append(f)
+
+    def push(self):
+        self.stack.append(len(self.fs))
+
+    def pop(self):
+        del self.fs[self.stack.pop():]
+
+    def check(self):
+        s = z3.SolverFor('QF_NRA')
+        s.set('timeout', self.timeout * 1000)
+        for f in self.fs:
+            s.add(f)
+        r = s.check()
+        self._m = s.model() if r == z3.sat else None
+        return r
+
+    def model(self):
+        return self._m
+
+
 class Explorer:
-    def __init__(self, tu, script, assume, enc_kwargs=None, max_paths=4096, int_choices=None, timeout=30, logic=None):
+    def __init__(self, tu, script, assume, enc_kwargs=None, max_paths=4096, int_choices=None, timeout=30, logic=None, nonlinear=False, budget_s=None):
         """assume(enc) -> list of z3 formulas (domain assumptions) for a freshly built encoder of a run."""
         self.tu, self.script, self.assume = tu, script, assume
         self.enc_kwargs = enc_kwargs or {}
@@ -16,13 +48,20 @@ class Explorer:
         self.complete = True
         self.unknown = 0
         self.logic = logic
+        self.nonlinear = nonlinear
+        self.budget_s = budget_s
 
     def paths(self):
         """yields (decisions, dag, enc, model_shadows) for every feasible complete path"""
+        import time as _t
         work = [([], None)]
         seen = set()
         npaths = 0
+        t_start = _t.time()
         while work:
+            if self.budget_s is not None and _t.time() - t_start > self.budget_s:
+                self.complete = False
+                return
             prefix, shadows = work.pop()
             key = tuple(prefix)
             if key in seen:
@@ -32,7 +71,7 @@ class Explorer:
             self.runs += 1
             enc = R.Enc(g, **self.enc_kwargs)
             base = self.assume(enc) + list(enc.assumptions)
-            s = z3.Solver() if self.logic is None else z3.SolverFor(self.logic)
+            s = _NL(self.timeout) if self.nonlinear else (z3.Solver() if self.logic is None else z3.SolverFor(self.logic))
             s.set('timeout', self.timeout * 1000)
             for f in base:
                 s.add(f)
